@@ -259,9 +259,76 @@ Proof. reflexivity. Qed.
 Definition op_texts (o : op) : list line :=
   match o with OPrintln _ m => text_lines m | _ => [] end.
 
-Lemma op_texts_log o : suspend_ok o = true ->
-  match o with OSuspend _ _ => True | _ => map lt (op_texts o) = op_log o end.
-Proof. destruct o; intros _; try reflexivity; try exact I. cbn. apply text_lines_lt. Qed.
+(* ------------------------------------------------------------------ the column after a call list *)
+Local Open Scope nat_scope.
+Lemma move_up_col : forall k t, t_col (move_up k t) = t_col t.
+Proof.
+  induction k as [|k IH]; intros t; [reflexivity|]. cbn [move_up].
+  destruct (t_above t); [reflexivity|]. now rewrite IH.
+Qed.
+
+Lemma move_down_col : forall k t, t_col (move_down k t) = t_col t.
+Proof.
+  induction k as [|k IH]; intros t; [reflexivity|]. cbn [move_down].
+  destruct (t_below t); now rewrite IH.
+Qed.
+
+Lemma exec_line_col Wn Hn t w : t_col (exec Wn Hn t (TLine w)) = 0.
+Proof. cbn [exec]. unfold line_feed. cbn [t_below t_col]. now destruct (t_below (puts Wn Hn t w)). Qed.
+
+(** [col_ok acc c0 t]: what the last writing call [acc] says about the column *)
+Definition col_ok (acc : option termop) (c0 : nat) (t : term) : Prop :=
+  match acc with
+  | None => t_col t = c0
+  | Some (TStr _) => True
+  | Some _ => t_col t = 0
+  end.
+
+Lemma col_after Wn Hn : forall e acc c0 t,
+  col_ok acc c0 t -> col_ok (last_write e acc) c0 (run_ops Wn Hn t e).
+Proof.
+  induction e as [|o e IH]; intros acc c0 t Hc; [exact Hc|].
+  cbn [last_write]. rewrite run_ops_cons. apply IH.
+  destruct o; cbn [is_write exec].
+  - unfold col_ok in *. destruct acc as [[]|]; try exact Logic.I; now rewrite move_up_col.
+  - unfold col_ok in *. destruct acc as [[]|]; try exact Logic.I; now rewrite move_down_col.
+  - reflexivity.
+  - apply exec_line_col.
+  - exact Logic.I.
+  - exact Hc.
+Qed.
+
+Lemma last_write_app : forall e1 e2 acc, last_write (e1 ++ e2) acc = last_write e2 (last_write e1 acc).
+Proof. induction e1 as [|o e1 IH]; intros e2 acc; [reflexivity|]. cbn [app last_write]. apply IH. Qed.
+
+Lemma last_write_clear_loop : forall k acc,
+  last_write (clear_loop k) acc = match k with O => acc | _ => Some TClear end.
+Proof.
+  induction k as [|k IH]; intros acc; [reflexivity|].
+  destruct k as [|k]; [reflexivity|].
+  change (clear_loop (S (S k))) with (TClear :: TDown 1 :: clear_loop (S k)).
+  cbn [last_write is_write]. now rewrite IH.
+Qed.
+Local Open Scope N_scope.
+
+(** the calls of a draw of the EMPTY line list (Drawable::clear) under Top alignment and the
+    column they leave: column 0 if rows were erased, unchanged otherwise *)
+Lemma clear_draw_col W H tg t c : tt_align tg = Top ->
+  t_col (run_ops (N.to_nat W) (N.to_nat H) t (snd (fst (fst (term_draw W H nofail tg [] c)))))
+  = if tt_n tg =? 0 then t_col t else 0%nat.
+Proof.
+  intros Hal. unfold term_draw. rewrite Hal, draw_to_term_top_eq, emit_nofail. cbn [fst snd paint app].
+  set (e := (if tt_below tg && (0 <? tt_n tg) then [TUp 1] else []) ++ clear_ops (tt_n tg) ++ [TFlush]).
+  pose proof (col_after (N.to_nat W) (N.to_nat H) e None (t_col t) t eq_refl) as Hc.
+  assert (Hl : last_write e None = if tt_n tg =? 0 then None else Some TClear).
+  { unfold e, clear_ops. rewrite last_write_app.
+    assert (E0 : last_write (if tt_below tg && (0 <? tt_n tg) then [TUp 1] else []) None = None)
+      by (destruct (tt_below tg && (0 <? tt_n tg)); reflexivity).
+    rewrite E0. cbn [app last_write is_write]. rewrite !last_write_app, last_write_clear_loop.
+    cbn [last_write is_write]. destruct (N.eqb_spec (tt_n tg) 0) as [->|Hn]; [reflexivity|].
+    destruct (N.to_nat (tt_n tg)) eqn:E; [lia | reflexivity]. }
+  rewrite Hl in Hc. destruct (tt_n tg =? 0); exact Hc.
+Qed.
 
 (** The per-op case analysis, done once, generically in the invariant [I] that relates the target
     (last_line_count, alignment, cursor_below), the terminal and the ghost log/frame, and in the
@@ -284,7 +351,8 @@ Section GenInv.
       (run_ops Wn Hn t (snd (fst (fst (term_draw W H nofail tg (texts ++ bars) c)))))
       (log ++ map lt texts) (map lt bars).
   Hypothesis I_write : forall tg t log w,
-    I tg t log [] -> w <> [] -> I tg (exec Wn Hn t (TLine w)) (log ++ [w]) [].
+    I tg t log [] -> (w <> [] \/ t_col t = 0%nat) -> I tg (exec Wn Hn t (TLine w)) (log ++ [w]) [].
+  Hypothesis I_top : forall tg t log frame, I tg t log frame -> tt_align tg = Top.
 
   Definition SInv (st : sys * ghost * term) : Prop :=
     exists b tg, SB (fst (fst st)) b tg
@@ -325,15 +393,16 @@ Section GenInv.
   Qed.
 
   Lemma writes_gen tg : forall ws t log,
-    I tg t log [] -> forallb (fun w => match w with [] => false | _ => true end) ws = true ->
+    I tg t log [] -> match ws with [] :: _ => t_col t = 0%nat | _ => True end ->
     I tg (run_ops Wn Hn t (map TLine ws)) (log ++ ws) [].
   Proof using I_write.
     induction ws as [|w ws IH]; intros t log Hinv Hok.
     - cbn [map]. rewrite run_ops_nil, app_nil_r. exact Hinv.
-    - cbn [forallb] in Hok. apply andb_prop in Hok. destruct Hok as [Hw Hok].
-      cbn [map]. rewrite run_ops_cons.
+    - cbn [map]. rewrite run_ops_cons.
       replace (log ++ w :: ws) with ((log ++ [w]) ++ ws) by (rewrite <- app_assoc; reflexivity).
-      apply IH; [|exact Hok]. apply I_write; [exact Hinv|]. destruct w; discriminate.
+      apply IH.
+      + apply I_write; [exact Hinv|]. destruct w; [right; exact Hok | left; discriminate].
+      + destruct ws as [|[|c w2] ws2]; try exact Logic.I. apply exec_line_col.
   Qed.
 
   (** an op that (after mutating the logical state, not the target) calls BarState::draw *)
@@ -374,12 +443,13 @@ Section GenInv.
   Proof. destruct k; destruct (b_len b); reflexivity. Qed.
 
   Lemma step_gen s g t now o :
-    SInv (s, g, t) -> c01_op o = true -> suspend_ok o = true ->
+    SInv (s, g, t) -> (g_edge g = false -> t_col t = 0%nat) ->
+    c01_op o = true -> suspend_okb g (bar_n s) o = true ->
     (snd (fst (step W H nofail s now o)) <> [] ->
      ok (op_texts o) (frame_of (get_bar (fst (fst (step W H nofail s now o))) 0))) ->
     SInv (sb_step W H (s, g, t) (now, o)).
-  Proof using ok_nil I_same I_draw I_write.
-    intros (b & tg & Hsb & Hinv) Hop Hsus Hfit. cbn [fst snd] in Hsb, Hinv.
+  Proof using ok_nil I_same I_draw I_write I_top.
+    intros (b & tg & Hsb & Hinv) Hedge Hop Hsus Hfit. cbn [fst snd] in Hsb, Hinv.
     unfold sb_step. cbn [fst snd].
     destruct o; cbn [c01_op] in Hop; try discriminate;
       match goal with Hx : (?x =? 0) = true |- _ => apply N.eqb_eq in Hx; subst x end;
@@ -455,14 +525,22 @@ Section GenInv.
                     Hinv (Forall_nil _) (Forall_nil _) ok_nil) as Hd.
       cbn [app map] in Hd. rewrite app_nil_r in Hd.
       pose proof (term_draw_nonempty W H tg [] (s_calls s)) as Hne.
+      pose proof (clear_draw_col W H tg t (s_calls s) (I_top _ _ _ _ Hinv)) as Hcol.
+      assert (Hbn : bar_n s = tt_n tg) by (unfold bar_n; rewrite Hget, Ht; reflexivity).
+      rewrite Hbn in Hsus.
       destruct (term_draw W H nofail tg [] (s_calls s)) as [[[tg1 e1] c1] ok1].
-      cbn [fst snd] in Hd, Hne. rewrite emit_each_nofail in *.
+      cbn [fst snd] in Hd, Hne, Hcol. fold Wn Hn in Hcol. rewrite emit_each_nofail in *.
       set (s1 := set_s_calls (upd_bar s 0 (fun x => set_b_target x (TTerm tg1)))
                              (c1 + N.of_nat (length (map TLine ws)))) in *.
       assert (Hsb1 : SB s1 (set_b_target b (TTerm tg1)) tg1).
       { apply SB_calls. apply (SB_upd_target s b tg). exact Hsb. }
       destruct (bar_draw W H nofail s1 0 true now) as [s2 e3] eqn:Ed. cbn [fst snd] in *.
-      pose proof (writes_gen tg1 ws _ _ Hd Hsus) as Hw.
+      assert (Hfirst : match ws with [] :: _ => t_col (run_ops Wn Hn t e1) = 0%nat | _ => True end).
+      { destruct ws as [|[|c0 w0] ws0]; try exact Logic.I. cbn [suspend_okb] in Hsus.
+        rewrite Hcol. destruct (N.eqb_spec (tt_n tg) 0) as [E0|E0]; [|reflexivity].
+        rewrite E0 in Hsus. cbn [N.ltb N.compare orb] in Hsus.
+        apply Hedge. destruct (g_edge g); [discriminate | reflexivity]. }
+      pose proof (writes_gen tg1 ws _ _ Hd Hfirst) as Hw.
       destruct (bar_draw_gen _ _ _ _ _ [] _ _ _ _ Hsb1 Hw Ed) as (b' & tg' & Hsb' & Hfr & Hforce & Hi).
       specialize (Hforce eq_refl).
       rewrite frame_of_set_target in Hfr, Hi.
@@ -531,16 +609,32 @@ Section GenInv.
   Lemma sb_step_sys s g t x : fst (fst (sb_step W H (s, g, t) x)) = fst (fst (step W H nofail s (fst x) (snd x))).
   Proof. unfold sb_step. destruct (step W H nofail s (fst x) (snd x)) as [[s' e] r]. reflexivity. Qed.
 
+  (** the ghost flag [g_edge] is false only when the cursor is at column 0 *)
+  Lemma edge_step s g t x :
+    (g_edge g = false -> t_col t = 0%nat) ->
+    (g_edge (snd (fst (sb_step W H (s, g, t) x))) = false -> t_col (snd (sb_step W H (s, g, t) x)) = 0%nat).
+  Proof.
+    intros Hedge. unfold sb_step. destruct (step W H nofail s (fst x) (snd x)) as [[s' e] r].
+    cbn [fst snd gstep g_edge].
+    pose proof (col_after Wn Hn e None (t_col t) t eq_refl) as Hc.
+    unfold Wn, Hn in Hc.
+    destruct (last_write e None) as [[]|]; cbn [col_ok] in Hc; intros Hf; try discriminate; try exact Hc.
+    rewrite Hc. exact (Hedge Hf).
+  Qed.
+
   Lemma run_gen : forall h s g t,
-    SInv (s, g, t) -> hist_ok h -> ok_hist s h -> SInv (sb_run W H (s, g, t) h).
-  Proof using ok_nil I_same I_draw I_write.
-    induction h as [|[now o] h IH]; intros s g t Hinv Hok Hfit; [exact Hinv|].
+    SInv (s, g, t) -> (g_edge g = false -> t_col t = 0%nat) ->
+    hist_ok W H s g h -> ok_hist s h -> SInv (sb_run W H (s, g, t) h).
+  Proof using ok_nil I_same I_draw I_write I_top.
+    induction h as [|[now o] h IH]; intros s g t Hinv Hedge Hok Hfit; [exact Hinv|].
     unfold sb_run. cbn [fold_left]. fold (sb_run W H).
-    inversion Hok as [|x l [Hc Hs] Hok']; subst. cbn [fst snd] in Hc, Hs.
+    unfold hist_ok in Hok. cbn [hist_okb fst snd] in Hok.
+    apply andb_prop in Hok. destruct Hok as [Hok Hrest]. apply andb_prop in Hok. destruct Hok as [Hc Hs].
     destruct Hfit as [Hf1 Hf2]. cbn [fst snd] in Hf1, Hf2.
-    pose proof (step_gen s g t now o Hinv Hc Hs Hf1) as Hinv'.
-    pose proof (sb_step_sys s g t (now, o)) as Hsys. cbn [fst snd] in Hsys.
-    destruct (sb_step W H (s, g, t) (now, o)) as [[s' g'] t']. cbn [fst snd] in Hsys. subst s'.
+    pose proof (step_gen s g t now o Hinv Hedge Hc Hs Hf1) as Hinv'.
+    pose proof (edge_step s g t (now, o) Hedge) as Hedge'.
+    unfold sb_step in *. cbn [fst snd] in *.
+    destruct (step W H nofail s now o) as [[s' e] r]. cbn [fst snd] in *.
     apply IH; assumption.
   Qed.
 End GenInv.
@@ -575,7 +669,8 @@ Section C01.
   Qed.
 
   Lemma TInv_write tg t log w :
-    TInv W H pre tg t log [] -> w <> [] -> TInv W H pre tg (exec Wn Hn t (TLine w)) (log ++ [w]) [].
+    TInv W H pre tg t log [] -> (w <> [] \/ t_col t = 0%nat) ->
+    TInv W H pre tg (exec Wn Hn t (TLine w)) (log ++ [w]) [].
   Proof using HW HH.
     assert (HWn : (1 <= Wn)%nat) by (unfold Wn; lia).
     assert (HHn : (1 <= Hn)%nat) by (unfold Hn; lia).
@@ -584,8 +679,7 @@ Section C01.
     assert (HF0 : F = []).
     { apply rows_equiv_length in HF. cbn in HF. destruct F; [reflexivity | discriminate]. }
     subst F. rewrite app_nil_r in Hr. cbn [length] in Hlen.
-    destruct (line_spec Wn Hn (pre ++ L) t w HWn HHn Hr) as (Hr' & Hc' & Hre').
-    { left. exact Hw. }
+    destruct (line_spec Wn Hn (pre ++ L) t w HWn HHn Hr Hw) as (Hr' & Hc' & Hre').
     split; [exact Hal|]. exists (L ++ chunks Wn w), [].
     rewrite app_nil_r. repeat split.
     + rewrite app_assoc. exact Hr'.
@@ -607,8 +701,8 @@ Section C01.
 
   (** the invariant after every history *)
   Lemma c01_invariant s0 t0 h :
-    sb_initial s0 -> ready Wn Hn pre t0 -> hist_ok h -> Fits W H s0 h ->
-    SInv (TInv W H pre) (sb_run W H (s0, ghost0, t0) h).
+    sb_initial s0 -> ready Wn Hn pre t0 -> hist_ok W H s0 (ghost_for t0) h -> Fits W H s0 h ->
+    SInv (TInv W H pre) (sb_run W H (s0, ghost_for t0, t0) h).
   Proof using HW HH.
     intros (b & tg & Hs & Ht & Hn0 & Hal & Hbel) Hr Hok Hfit.
     apply (run_gen W H fit_ok (TInv W H pre)).
@@ -616,9 +710,11 @@ Section C01.
     - intros tg1 tg1' t1 l1 f1 E1 E2 E3 Hi1. exact (TInv_same tg1 tg1' t1 l1 f1 E1 E2 E3 Hi1).
     - intros tg1 t1 l1 f1 tx bs c1 Hi1 Htx Hbs Hk. exact (TInv_draw tg1 t1 l1 f1 tx bs c1 Hi1 Htx Hbs Hk).
     - intros tg1 t1 l1 w1 Hi1 Hw1. exact (TInv_write tg1 t1 l1 w1 Hi1 Hw1).
-    - exists b, tg. cbn [fst snd ghost0 g_log g_frame map]. split; [split; assumption|].
+    - intros tg1 t1 l1 f1 Hi1. exact (proj1 Hi1).
+    - exists b, tg. cbn [fst snd ghost_for g_log g_frame map]. split; [split; assumption|].
       split; [exact Hal|]. exists [], []. rewrite !app_nil_r. rewrite Hn0. cbn.
       repeat split; try assumption; try reflexivity; lia.
+    - cbn [ghost_for g_edge]. intros He. destruct (Nat.eqb_spec (t_col t0) 0); [assumption | discriminate].
     - exact Hok.
     - apply fits_ok_hist. exact Hfit.
   Qed.
@@ -626,15 +722,15 @@ Section C01.
 
   (** C01: the screen equation and the cursor clause *)
   Theorem c01_screen s0 t0 h :
-    sb_initial s0 -> ready Wn Hn pre t0 -> hist_ok h -> Fits W H s0 h ->
-    let g := snd (fst (sb_run W H (s0, ghost0, t0) h)) in
-    let t := snd (sb_run W H (s0, ghost0, t0) h) in
+    sb_initial s0 -> ready Wn Hn pre t0 -> hist_ok W H s0 (ghost_for t0) h -> Fits W H s0 h ->
+    let g := snd (fst (sb_run W H (s0, ghost_for t0, t0) h)) in
+    let t := snd (sb_run W H (s0, ghost_for t0, t0) h) in
     (exists k, screen Wn t = map (pad Wn) (expected_rows W pre g) ++ repeat (repeat SP Wn) k)
     /\ next_cell Wn t = (length (expected_rows W pre g), 0%nat).
   Proof using HW HH.
     intros Hinit Hr Hok Hfit. cbv zeta.
     pose proof (c01_invariant s0 t0 h Hinit Hr Hok Hfit) as Hinv.
-    destruct (sb_run W H (s0, ghost0, t0) h) as [[s g] t]. unfold SInv in Hinv. cbn [fst snd] in *.
+    destruct (sb_run W H (s0, ghost_for t0, t0) h) as [[s g] t]. unfold SInv in Hinv. cbn [fst snd] in *.
     destruct Hinv as (b & tg & _ & _ & L & F & Hready & HL & HF & _).
     assert (HWn : (1 <= Wn)%nat) by (unfold Wn; lia).
     unfold expected_rows. unfold Wn, Hn in *. split.
@@ -655,20 +751,25 @@ Proof.
   rewrite Ha. cbn [andb]. eapply IH. exact Hb.
 Qed.
 
-Lemma hist_ok_prefix h1 h2 : hist_ok (h1 ++ h2) -> hist_ok h1.
-Proof. unfold hist_ok. intros Hf. apply Forall_app in Hf. exact (proj1 Hf). Qed.
+Lemma hist_ok_prefix W H : forall h1 h2 s g, hist_ok W H s g (h1 ++ h2) -> hist_ok W H s g h1.
+Proof.
+  unfold hist_ok. induction h1 as [|x h1 IH]; intros h2 s g Hf; [reflexivity|].
+  cbn [app hist_okb] in *. apply andb_prop in Hf. destruct Hf as [Ha Hb]. rewrite Ha. cbn [andb].
+  destruct (step W H nofail s (fst x) (snd x)) as [[s' e] r]. eapply IH. exact Hb.
+Qed.
 
 Theorem c01_screen_every_prefix W H pre s0 t0 h1 h2 :
   1 <= W -> 1 <= H ->
-  sb_initial s0 -> ready (N.to_nat W) (N.to_nat H) pre t0 -> hist_ok (h1 ++ h2) -> Fits W H s0 (h1 ++ h2) ->
-  let g := snd (fst (sb_run W H (s0, ghost0, t0) h1)) in
-  let t := snd (sb_run W H (s0, ghost0, t0) h1) in
+  sb_initial s0 -> ready (N.to_nat W) (N.to_nat H) pre t0 ->
+  hist_ok W H s0 (ghost_for t0) (h1 ++ h2) -> Fits W H s0 (h1 ++ h2) ->
+  let g := snd (fst (sb_run W H (s0, ghost_for t0, t0) h1)) in
+  let t := snd (sb_run W H (s0, ghost_for t0, t0) h1) in
   (exists k, screen (N.to_nat W) t
              = map (pad (N.to_nat W)) (expected_rows W pre g) ++ repeat (repeat SP (N.to_nat W)) k)
   /\ next_cell (N.to_nat W) t = (length (expected_rows W pre g), 0%nat).
 Proof.
   intros HW HH Hi Hr Hok Hf.
-  exact (c01_screen W H HW HH pre s0 t0 h1 Hi Hr (hist_ok_prefix _ _ Hok) (fits_prefix _ _ _ _ _ Hf)).
+  exact (c01_screen W H HW HH pre s0 t0 h1 Hi Hr (hist_ok_prefix _ _ _ _ _ _ Hok) (fits_prefix _ _ _ _ _ Hf)).
 Qed.
 
 (* ================================================================== C19 *)
@@ -767,26 +868,28 @@ Section C19History.
   (** C19 (c) over every history (no Fits proviso): after every op, last_line_count is the number
       of rows of the maximal fitting prefix of the frame of the last painted draw, hence <= H *)
   Theorem c19_rows_bounded s0 t0 h :
-    sb_initial s0 -> hist_ok h ->
-    let st := sb_run W H (s0, ghost0, t0) h in
+    sb_initial s0 -> hist_ok W H s0 (ghost_for t0) h ->
+    let st := sb_run W H (s0, ghost_for t0, t0) h in
     exists b tg, s_bars (fst (fst st)) = [b] /\ b_target b = TTerm tg
       /\ tt_n tg = bar_rows (fitting_prefix W H (g_frame (snd (fst st)))) W
       /\ tt_n tg <= H.
   Proof.
     intros (b & tg & Hs & Ht & Hn0 & Hal & Hbel) Hok. cbv zeta.
-    assert (Hinv : SInv RInv (sb_run W H (s0, ghost0, t0) h)).
+    assert (Hinv : SInv RInv (sb_run W H (s0, ghost_for t0, t0) h)).
     { apply (run_gen W H (fun _ _ => True) RInv).
       - exact Logic.I.
       - intros tg1 tg1' t1 l1 f1 E1 E2 E3 [Ha Hb]. split; congruence.
       - exact RInv_draw.
       - intros tg1 t1 l1 w1 Hi1 _. exact Hi1.
-      - exists b, tg. cbn [fst snd ghost0 g_log g_frame map]. split; [split; assumption|].
+      - intros tg1 t1 l1 f1 Hi1. exact (proj1 Hi1).
+      - exists b, tg. cbn [fst snd ghost_for g_log g_frame map]. split; [split; assumption|].
         split; [exact Hal|]. rewrite Hn0. reflexivity.
+      - cbn [ghost_for g_edge]. intros He. destruct (Nat.eqb_spec (t_col t0) 0); [assumption | discriminate].
       - exact Hok.
       - clear. revert s0. induction h as [|x h IH]; intros s0; cbn [ok_hist]; [exact Logic.I|].
         split; [intros _; exact Logic.I | apply IH]. }
-    pose proof (ghost_frame_bars W H h (s0, ghost0, t0) (Forall_nil _)) as Hgb.
-    destruct (sb_run W H (s0, ghost0, t0) h) as [[s g] t]. unfold SInv in Hinv. cbn [fst snd] in *.
+    pose proof (ghost_frame_bars W H h (s0, ghost_for t0, t0) (Forall_nil _)) as Hgb.
+    destruct (sb_run W H (s0, ghost_for t0, t0) h) as [[s g] t]. unfold SInv in Hinv. cbn [fst snd] in *.
     destruct Hinv as (b' & tg' & [Hs' Ht'] & Hal' & Hn').
     exists b', tg'. split; [exact Hs'|]. split; [exact Ht'|].
     rewrite (bars_eta _ Hgb) in Hn'. split; [exact Hn'|]. rewrite Hn'.
@@ -951,7 +1054,8 @@ Section C19Screen.
   Proof. unfold CInv. intros -> -> ->. exact (fun x => x). Qed.
 
   Lemma CInv_write tg t log w :
-    CInv W H pre tg t log [] -> w <> [] -> CInv W H pre tg (exec Wn Hn t (TLine w)) (log ++ [w]) [].
+    CInv W H pre tg t log [] -> (w <> [] \/ t_col t = 0%nat) ->
+    CInv W H pre tg (exec Wn Hn t (TLine w)) (log ++ [w]) [].
   Proof using HW HH.
     assert (HWn : (1 <= Wn)%nat) by (unfold Wn; lia).
     assert (HHn : (1 <= Hn)%nat) by (unfold Hn; lia).
@@ -959,7 +1063,7 @@ Section C19Screen.
     assert (HF0 : F = []).
     { apply rows_equiv_length in HF. cbn in HF. destruct F; [reflexivity | discriminate]. }
     subst F. destruct Hstate as [[_ Hr] | (HFne & _)]; [|congruence].
-    destruct (line_spec Wn Hn (pre ++ L) t w HWn HHn Hr (or_introl Hw)) as (Hr' & _ & _).
+    destruct (line_spec Wn Hn (pre ++ L) t w HWn HHn Hr Hw) as (Hr' & _ & _).
     split; [exact Hal|]. exists (L ++ chunks Wn w), [].
     split; [rewrite wrap_app; apply rows_equiv_app; [exact HL|]; unfold wrap; cbn; rewrite app_nil_r; apply rows_equiv_refl|].
     split; [apply rows_equiv_refl|]. split; [exact Hlen|].
@@ -977,8 +1081,8 @@ Section C19Screen.
   Qed.
 
   Lemma c19_invariant s0 t0 h :
-    sb_initial s0 -> ready Wn Hn pre t0 -> hist_ok h -> NoTextCut W H s0 h ->
-    SInv (CInv W H pre) (sb_run W H (s0, ghost0, t0) h).
+    sb_initial s0 -> ready Wn Hn pre t0 -> hist_ok W H s0 (ghost_for t0) h -> NoTextCut W H s0 h ->
+    SInv (CInv W H pre) (sb_run W H (s0, ghost_for t0, t0) h).
   Proof using HW HH.
     intros (b & tg & Hs & Ht & Hn0 & Hal & Hbel) Hr Hok Hcut.
     apply (run_gen W H (cut_ok W H) (CInv W H pre)).
@@ -986,10 +1090,12 @@ Section C19Screen.
     - intros tg1 tg1' t1 l1 f1 E1 E2 E3 Hi1. exact (CInv_same tg1 tg1' t1 l1 f1 E1 E2 E3 Hi1).
     - intros tg1 t1 l1 f1 tx bs c1 Hi1 Htx Hbs Hk. exact (CInv_draw W H HW HH pre tg1 t1 l1 f1 tx bs c1 Hi1 Htx Hbs Hk).
     - intros tg1 t1 l1 w1 Hi1 Hw1. exact (CInv_write tg1 t1 l1 w1 Hi1 Hw1).
-    - exists b, tg. cbn [fst snd ghost0 g_log g_frame map]. split; [split; assumption|].
+    - intros tg1 t1 l1 f1 Hi1. exact (proj1 Hi1).
+    - exists b, tg. cbn [fst snd ghost_for g_log g_frame map]. split; [split; assumption|].
       split; [exact Hal|]. exists [], []. rewrite Hn0. cbn [length N.to_nat].
       split; [apply rows_equiv_refl|]. split; [apply rows_equiv_refl|]. split; [reflexivity|].
       left. split; [reflexivity|]. rewrite app_nil_r. exact Hr.
+    - cbn [ghost_for g_edge]. intros He. destruct (Nat.eqb_spec (t_col t0) 0); [assumption | discriminate].
     - exact Hok.
     - apply no_text_cut_ok_hist. exact Hcut.
   Qed.
@@ -999,15 +1105,15 @@ Section C19Screen.
       wrapped and cut or not, has been blanked completely and nothing above it was touched
       (cursor-up was never clamped: the rows to erase are within reach, [CInv]) *)
   Theorem c19_erase_exact s0 t0 h :
-    sb_initial s0 -> ready Wn Hn pre t0 -> hist_ok h -> NoTextCut W H s0 h ->
-    let g := snd (fst (sb_run W H (s0, ghost0, t0) h)) in
-    let t := snd (sb_run W H (s0, ghost0, t0) h) in
+    sb_initial s0 -> ready Wn Hn pre t0 -> hist_ok W H s0 (ghost_for t0) h -> NoTextCut W H s0 h ->
+    let g := snd (fst (sb_run W H (s0, ghost_for t0, t0) h)) in
+    let t := snd (sb_run W H (s0, ghost_for t0, t0) h) in
     exists k, screen Wn t = map (pad Wn) (expected_rows_cut W H pre g) ++ repeat (repeat SP Wn) k.
   Proof using HW HH.
     intros Hinit Hr Hok Hcut. cbv zeta.
     pose proof (c19_invariant s0 t0 h Hinit Hr Hok Hcut) as Hinv.
-    pose proof (ghost_frame_bars W H h (s0, ghost0, t0) (Forall_nil _)) as Hgb.
-    destruct (sb_run W H (s0, ghost0, t0) h) as [[s g] t]. unfold SInv in Hinv. cbn [fst snd] in *.
+    pose proof (ghost_frame_bars W H h (s0, ghost_for t0, t0) (Forall_nil _)) as Hgb.
+    destruct (sb_run W H (s0, ghost_for t0, t0) h) as [[s g] t]. unfold SInv in Hinv. cbn [fst snd] in *.
     destruct Hinv as (b & tg & _ & _ & L & F & HL & HF & _ & Hstate).
     rewrite (bars_eta _ Hgb) in HF.
     unfold expected_rows_cut, fit_prefix. unfold fitting_prefix in HF. unfold Wn, Hn in *.
